@@ -480,6 +480,9 @@ def monitor_tl(case, impl):
         if ev == "r:true":
             if w & 1:
                 return ("trylock-while-held", "TryLock returned true on state word %d whose locked bit is set (another holder has not unlocked)" % w)
+            if w & 4:
+                return ("trylock-starving", "TryLock returned true on state word %d in starvation mode: ownership is being handed to a waiter "
+                        "(sync/mutex.go: 'mutex is still considered locked if mutexStarving is set'), so the caller is not the sole holder" % w)
             if a != (w | 1):
                 return ("trylock-word", "TryLock returned true: state word %d -> %d, must only set the locked bit" % (w, a))
         elif a != w:
@@ -599,17 +602,7 @@ def run(chk):
         streams = [("corpus", pure.corpus_cases("C17"))] + gen(chk, chk.tier)
         pure.run_streams(chk, binary, streams, compare, monitor, nontrivial)
         # real-concurrency stress: implementation side only
-        try:
-            sc = gen_stress(chk, chk.tier)
-            so = common.run_impl(binary, sc, timeout=600)
-            for c, i in zip(sc, so):
-                chk.count_case("stress-real-goroutines", c, True)
-                mf = monitor(c, i)
-                if mf:
-                    chk.monitor_fail(mf[0], c, i, mf[1])
-            chk.sample(dict(stream="stress-real-goroutines", case=sc[0], impl=so[0]), limit=12)
-        except common.ImplCrash as e:
-            chk.infra_errors.append("stress run crashed or hung: " + str(e)[-800:])
+        run_stress(chk, binary, gen_stress(chk, chk.tier), count=True)
         try:
             canary(chk, binary)
             sample = []
@@ -622,12 +615,38 @@ def run(chk):
     chk.finish(search=search)
 
 
+def run_stress(chk, binary, cases, count=False):
+    """each stress case in its own process: a runtime 'fatal error: sync: inconsistent mutex state' /
+    'unlock of unlocked mutex' or a hang is a failing input, not an infrastructure error"""
+    import subprocess
+    for k, c in enumerate(cases):
+        try:
+            i = common.run_impl(binary, [c], timeout=120)[0]
+        except common.ImplCrash as e:
+            msg = str(e)
+            m = re.search(r"fatal error: [^\n]*|panic: [^\n]*", msg)
+            chk.monitor_fail("stress-crash", c, (m.group(0) if m else msg[-300:]),
+                             "Lock/TryLock/Unlock stress on one loom.Mutex crashed the process: " + (m.group(0) if m else msg[-300:]))
+            continue
+        except subprocess.TimeoutExpired:
+            chk.monitor_fail("stress-hang", c, "timeout", "Lock/TryLock/Unlock stress did not finish within 120 s (lost wake-up / corrupted state word)")
+            continue
+        if count:
+            chk.count_case("stress-real-goroutines", c, True)
+            if k == 0:
+                chk.sample(dict(stream="stress-real-goroutines", case=c, impl=i), limit=12)
+        mf = monitor(c, i)
+        if mf:
+            chk.monitor_fail(mf[0], c, i, mf[1])
+
+
 def search(chk):
     binary = build_coop(chk)
     if not binary:
         return
     chk.rng = chk.rng.fork()
-    cases = [c for _, cs in gen(chk, "quick") for c in cs] + pure.corpus_cases("C17") + gen_stress(chk, "quick")
+    cases = [c for _, cs in gen(chk, "quick") for c in cs] + pure.corpus_cases("C17")
+    run_stress(chk, binary, gen_stress(chk, "quick") * 2)
     impl = common.run_impl(binary, cases)
     for c, i in zip(cases, impl):
         mf = monitor(c, i)
